@@ -32,6 +32,11 @@ def run(ctx):
             d = calc.vacancy_data(s, rng, 0, 2)
             if len(d["eneT2"]) > 1 and rep % 2 == 0:
                 d["eneT2"][0] -= 3 * calc.LN2      # distinct exchange rates for symmetry-distinct exchanges
+            if rep % 2 == 1:
+                # realistic absolute rates: every barrier +23 levels (all rates x 2^-23 ~ 1e-7); the choice between the
+                # two algorithms must depend on rate RATIOS only
+                for kk in ("eneT0", "eneT1", "eneT2"):
+                    d[kk] = np.array(d[kk]) + 23 * calc.LN2
             res = {}
             ks = list(range(-3, 17))
             base = {kk: np.asarray(v).tolist() for kk, v in d.items()}
